@@ -55,6 +55,7 @@ type IsoOpts struct {
 	CaseTimeout time.Duration // 0 = 60 s
 	Workers     int           // 0 = NumCPU
 	ExtraArgs   []string      // passed to the worker (e.g. the same --part flag)
+	Procs       int           // GOMAXPROCS of a worker; 0 = 2
 }
 
 // RunIsolated distributes cases 0..n-1 over worker subprocesses. handle is called (serialised) with the JSON result
@@ -89,7 +90,11 @@ func (r *Run) RunIsolated(n int, o IsoOpts, handle func(i int, result json.RawMe
 					args += " " + a
 				}
 				cmd := exec.Command("bash", "-c", fmt.Sprintf("ulimit -v %d; exec \"$0\" %s", o.MemKB, args), self)
-				cmd.Env = append(os.Environ(), "GOMAXPROCS=2", "GOTRACEBACK=single")
+				procs := o.Procs
+				if procs == 0 {
+					procs = 2
+				}
+				cmd.Env = append(os.Environ(), fmt.Sprintf("GOMAXPROCS=%d", procs), "GOTRACEBACK=single")
 				stdout, _ := cmd.StdoutPipe()
 				errbuf := &capWriter{n: 6000}
 				cmd.Stderr = errbuf
